@@ -698,6 +698,75 @@ RE_WRITE_PRIM = (r"^core::ptr::(write|write_volatile|write_unaligned|replace|swa
 RE_COPY_PRIM = r"^core::(ptr|intrinsics)::(copy|copy_nonoverlapping)$|^core::ptr::mut_ptr::<impl \*mut T>::copy_from(_nonoverlapping)?$"
 
 
+def r3_11(ctx, R, inc, dec, free_fn):
+    ctx.rule("R3.11", "the decrement is this owner's LAST touch: in every function, after a call that gives up a reference (the "
+                      "decrement itself, or a crate function that decrements on all its paths, e.g. the vtable drop) nothing "
+                      "reaches the shared block any more -- no further crate call, no load or store through a pointer to the "
+                      "header / slot item -- except, on the edge where the decrement reported 'was the last owner', the fence "
+                      "and the call of the freeing function (with its argument reads)")
+    hdr, shared = shared_types(ctx, inc)
+    decp = {d_.path for d_ in dec}
+    # functions that release on every return path (depth 1): callers' calls to them are release calls too
+    rel_fns = set(decp)
+    for b in ctx.facts.fn_bodies():
+        cnt, _ = count_calls_on_paths(ctx, b, dec, depth=0)
+        if cnt and set(cnt) == {1}:
+            rel_fns.add(b.path)
+    n = 0
+    for b in ctx.facts.fn_bodies():
+        if b.path in decp:
+            continue
+        fl = ctx.flow(b)
+        for bb, t, fn in b.calls():
+            cb = callee_body(ctx.facts, fn)
+            if cb is None or cb.path not in rel_fns or b.is_cleanup(bb):
+                continue
+            n += 1
+            last_tgts = set(true_edge_targets(ctx, b, bb)) if cb.path in decp else set()
+            # blocks reachable after the release call, not through the 'was last' edge
+            seen = set()
+            work = [x for x in b.normal_succ(bb)]
+            while work:
+                x = work.pop()
+                if x in seen or x in last_tgts:
+                    continue
+                seen.add(x)
+                work.extend(b.normal_succ(x))
+            bad = []
+            for x in sorted(seen):
+                if b.is_cleanup(x):
+                    continue
+                tx = b.term(x)
+                if tx["k"] == "call":
+                    fnx = tx["func"]["fn"] if tx["func"]["k"] == "const" and "fn" in tx["func"] else None
+                    cbx = callee_body(ctx.facts, fnx) if fnx else None
+                    if cbx is not None or fnx is None:
+                        bad.append("%s calls %s" % (b.loc(x), cbx.path.split("::")[-1] if cbx is not None else "<indirect>"))
+                for s_ in b.stmts(x):
+                    if s_["k"] != "assign":
+                        continue
+                    places = [s_["place"]]
+                    rv = s_["rv"]
+                    if rv["k"] in ("ref", "rawptr", "discr"):
+                        places.append(rv["place"])
+                    for key in ("op", "a", "b"):
+                        o = rv.get(key)
+                        if isinstance(o, dict) and o.get("k") in ("copy", "move"):
+                            places.append(o["place"])
+                    for p in places:
+                        ty = b.locals[p["l"]]
+                        for e in p["p"]:
+                            if e["k"] == "deref":
+                                ty = _deref_pointee(ty) or "?"
+                                if ty in shared:
+                                    bad.append("%s touches %s" % (b.loc(x), place_str(p)))
+                            elif e["k"] == "field":
+                                ty = e.get("ty", "?")
+            # the switch on the decrement's own result lives in the successor: reading that bool is not a touch
+            ctx.ob("R3.11", b, "nothing-after-giving-up-the-reference@%s" % _site_label(b, bb), not bad, b.loc(bb), "; ".join(bad[:3]))
+    ctx.floor("R3.11", "release-calls", n, 3)
+
+
 def r3_10(ctx, R, inc, ctor, free_fn):
     ctx.rule("R3.10", "the shared allocation is written non-atomically only while nobody else can reach it: plain stores "
                       "through a pointer to the header / slot item (or one of their fields' types), &mut borrows of such "
@@ -824,3 +893,4 @@ def run(ctx):
     r3_8(ctx, R)
     r3_9(ctx, R)
     r3_10(ctx, R, inc, ctor, free_fns[0])
+    r3_11(ctx, R, inc, dec, free_fns[0])
